@@ -64,6 +64,7 @@ def oracle_multiply(case):
         raise Fail("product_equals_gf256", got, exp)
 
 
+REJECTIONS = (TypeError, AttributeError, ValueError, NotImplementedError)  # policy of vp/containers.py for non-default containers
 DATA_REPS = ["bytes", "bytearray"]
 MASK_REPS = ["bytes", "bytearray", "memoryview"]
 
@@ -104,13 +105,18 @@ def oracle_generate(case):
             if (dk, mk) == ("bytes", "bytes"):
                 continue
             d, k = _octets(msg, dk), _octets(mask, mk)
-            got = call(RS().generate, d, k)[1]
+            st, got = call(RS().generate, d, k, allowed=REJECTIONS)
+            if st == "raised":
+                case.setdefault("_container_not_accepted", []).append(f"generate:{dk}/{mk}")
+                continue
             if bytes(d) != msg or bytes(k) != mask:
                 raise Fail("input_not_mutated", [bytes(d).hex(), bytes(k).hex()], [msg.hex(), mask.hex()], f"{dk}/{mk}")
             if not isinstance(got, (bytes, bytearray)) or bytes(got) != word:
                 raise Fail("generate_independent_of_container", repr(got), word.hex(), f"{dk}/{mk}")
-            ok = call(RS().check, _octets(word, dk), _octets(mask, mk))[1]
-            if ok is not True:
+            st, ok = call(RS().check, _octets(word, dk), _octets(mask, mk), allowed=REJECTIONS)
+            if st == "raised":
+                case.setdefault("_container_not_accepted", []).append(f"check:{dk}/{mk}")
+            elif ok is not True:
                 raise Fail("generated_word_accepted_under_same_mask", ok, True, f"{dk}/{mk}")
 
 
@@ -203,7 +209,13 @@ def oracle_check_word(case):
     exp = gf256.is_codeword(list(word), list(mask))
     for dk in DATA_REPS:
         for mk in MASK_REPS:
-            ok = call(RS().check, _octets(word, dk), _octets(mask, mk))[1]
+            if (dk, mk) == ("bytes", "bytes"):
+                ok = call(RS().check, word, mask)[1]
+            else:
+                st, ok = call(RS().check, _octets(word, dk), _octets(mask, mk), allowed=REJECTIONS)
+                if st == "raised":
+                    case.setdefault("_container_not_accepted", []).append(f"check:{dk}/{mk}")
+                    continue
             if ok is not exp:
                 raise Fail("checker_accepts_exactly_zero_syndrome_words", ok, exp, ("accepts_non_codeword" if not exp else "rejects_codeword") + ("" if (dk, mk) == ("bytes", "bytes") else f":{dk}/{mk}"))
 
